@@ -23,11 +23,13 @@ CLAIMS = {
               "(case-insensitive keywords, checked u8 conversions in bases 16/2/10, usize counts), no alternative shadows a later "
               "one, the whole line must be consumed. (C) Tui::handle_input maps every Command to exactly the documented machine "
               "call with its payload; CTRL+A/W/E/R/L/C and Enter act as documented, other keys do nothing, a notification swallows "
-              "the key, an invalid line only raises a notification."),
-        note=("Two genuine defects found and fixed (byte slicing in the completion; trailing input accepted: 'FC = 0x1FF' set FC "
-              "to 0). NOT decided: that drawing never fails at every terminal size - InputWidget::render mixes byte and char "
+              "the key, an invalid line only raises a notification. (A') the one library routine the editor hands a position to, "
+              "rustyline's complete_path(line, pos), is called within its slicing contract: pos is 0 or the byte offset of a character "
+              "boundary of line (from char_indices().nth() or len()), at most its length - decided with character counts in the zone domain."),
+        note=("Three genuine defects found and fixed (byte slicing in the FC..FF completion; trailing input accepted: 'FC = 0x1FF' set FC "
+              "to 0; 'load ä' + Tab handed a character count to a byte-slicing completer). NOT decided: that drawing never fails at every terminal size - InputWidget::render mixes byte and char "
               "offsets and subtracts from the area width; its safety depends on layout values computed inside the tui crate and on "
-              "the text being ASCII; rustyline's file-name completer; the event loop."),
+              "the text being ASCII; the inside of rustyline's file-name completer beyond its slicing contract; the event loop."),
         design="3/C17"),
     "C04": dict(
         category="other",
@@ -77,7 +79,9 @@ CLAIMS = {
               "matcher against the grammar file and read back: it must be claimed - under ordered choice - by the alternative "
               "of the same variant with the same operands. The numeric printers are checked against the numeric readers "
               "exhaustively over their lexical classes (all bytes in hex and decimal, all words in decimal). Label, comment "
-              "and instruction lines and whole programs (header + lines) must re-parse to the same lines."),
+              "and instruction lines and whole programs (header + lines) must re-parse to the same lines; the parser's step from "
+              "`line` pairs to the program's lines is one-to-one and in order for every file-level parse-tree shape (AsmParser::parse "
+              "interpreted abstractly, shared with C03)."),
         note=("One genuine defect found and fixed (Display for Asm: padded header, trailing newline). Round-trip equality of "
               "arbitrary runtime strings is not decided as such; the decided part is printer-subset-of-grammar and back to the "
               "same constructor, with labels/comments restricted to text their grammar rules accept."),
@@ -122,7 +126,8 @@ CLAIMS = {
               "the AST variant built and the order in which operand children reach its fields. Numeral classes are bounded "
               "lexically (max value <= target type, two ASCII prefix bytes); mnemonics, header, numeric ranges in three bases "
               "with leading zeros, the 40-label limit and the coverage and normalisation of the undefined-label scan are decided "
-              "on the grammar file and on MIR."),
+              "on the grammar file and on MIR; the undefined-label scan is interpreted on every instruction shape; AsmParser::parse "
+              "yields exactly one Line per `line` pair of the tree, in order, and the header comment iff the header has one."),
         note=("Not decided: equality of the accepted language with the manual beyond the listed clauses (no independent formal "
               "grammar exists in the sandbox); panics inside pest itself; repetitions longer than two iterations are covered by "
               "the uniform treatment of repeated children (filter/map or a loop body independent of the iteration count), "
@@ -130,16 +135,17 @@ CLAIMS = {
         design="3/C03"),
     "C14": dict(
         category="other",
-        technique="abstract interpretation of the board's methods on interval cells and single flag configurations",
+        technique="abstract interpretation of the board's methods on interval cells (binary32-exact float bounds) and single flag configurations",
         text=("The board's setters are interpreted abstractly on cells: float intervals incl. the NaN cell and both infinities for "
               "the clamping rule (stored = argument inside 0-5 V, 5 V above, 0 V below and for non-numbers), the whole byte "
               "range for the DAC law constant, separated intervals for the comparator refresh after each of the five operations "
               "that move a comparator input (incl. max(input 2, temperature)), all direction/level combinations for the UIO and "
               "jumper bits, all 144 combinations of source x polarity x old level x new level x selected/other for the edge "
               "interrupt of the six sources (comparators moved by their analog input and by a DAC write), and interval cells "
-              "for the fan period law."),
-        note=("One genuine defect found and fixed (fan period was constantly 0). Not decided: exact float rounding of /100.0, "
-              "comparator ties, interleaving-dependent flag histories beyond the per-operation shape."),
+              "for the fan period law; the comparator threshold is the stored DAC voltage byte/100 also at ties: for every byte, the "
+              "input equal to that binary32 value gives 0 and the next float above gives 1 (float operations rounded to binary32)."),
+        note=("One genuine defect found and fixed (fan period was constantly 0). Not decided: interleaving-dependent flag "
+              "histories beyond the per-operation shape."),
         design="3/C14"),
     "C12": dict(
         category="other",
@@ -202,6 +208,8 @@ CLAIMS = {
               "every field is unknown; the interpreter's write log gives the exact set of written leaf fields, which is compared "
               "in both directions with the reset class of every field (spec/reset_classes.toml; an unclassified new field fails "
               "closed), and the value left in every must-reset field is compared with the constant RawMachine::new() assigns. "
+              "RAM after load is the image followed by zeros over 240 opaque cells; the externally driven bits of the board's status "
+              "register (jumpers, UIO levels) are bit-for-bit unchanged by a master reset; the CPU reset leaves the board untouched. "
               "This covers every history because nothing about the prior state is assumed."),
         note=("Decides: exact reset coverage and power-on values for all 40 leaf fields, load = master reset + RAM clear + image "
               "copy shape + limits, NotSet never stored. Not decided: cycle-for-cycle equality with a fresh machine as an executed "
@@ -215,7 +223,8 @@ CLAIMS = {
               "must match the address map; RAM index/value identity is shown by def-use chains (no arithmetic between the address "
               "parameter and the index); reads are pure (&self, Freeze types, empty write log); register fields have only their "
               "documented writers; after a write the addressed cell/register holds the written byte (its defined bits for flag "
-              "registers) whatever it held before, and no other RAM cell changes."),
+              "registers) whatever it held before, and no other RAM cell changes; the CPU's clock-edge stages reach the bus only "
+              "through Bus::read/Bus::write and only the documented functions may obtain the MISR mutably (who-may-call)."),
         note=("Decides all clauses of DESIGN 3/C10. The sequence-level statement (later reads return the last write) follows for a "
               "plain array from index identity and single writers."),
         design="3/C10"),
@@ -253,7 +262,8 @@ CLAIMS = {
               "evaluated by abstract interpretation on (control word, IR) constants. On that graph: reachability of "
               "programmed words only, return to a fetch on every path for every defined opcode and defined second byte, "
               "the exact undefined-opcode set, absence of cycles outside MUL/DIV, exit edges and loop-variant shape of "
-              "the MUL/DIV loops."),
+              "the MUL/DIV loops; every IR-loading word latches exactly the byte read (so the routine entered is that of the "
+              "fetched opcode, also after STOP + continue)."),
         note=("Decides clauses 1-5 of DESIGN 3/C09. Not decided: termination of MUL/DIV for all 65 536 operand pairs as a "
               "numeric fact (the structural loop variant is decided; the ALU arithmetic is C08's)."),
         design="3/C09"),
